@@ -46,6 +46,21 @@ func noEOF(err error) error {
 	return err
 }
 
+// readFull fills buf from r. Unlike io.ReadFull it reports an error that the
+// source returns together with the last bytes: a bufio.Reader passes a read as
+// large as its buffer straight to the source and does not keep that error, so
+// dropping it here would lose it for good.
+func readFull(r io.Reader, buf []byte) error {
+	for n := 0; n < len(buf); {
+		m, err := r.Read(buf[n:])
+		n += m
+		if err != nil && !(err == io.EOF && n == len(buf)) {
+			return err
+		}
+	}
+	return nil
+}
+
 // The gzip file stores a header giving metadata about the compressed file.
 // That header is exposed as the fields of the Writer and Reader structs.
 //
@@ -204,7 +219,7 @@ func (z *Reader) readHeader() (hdr Header, err error) {
 		}
 		z.digest = crc32.Update(z.digest, crc32.IEEETable, z.buf[:2])
 		data := make([]byte, le.Uint16(z.buf[:2]))
-		if _, err = io.ReadFull(z.r, data); err != nil {
+		if err = readFull(z.r, data); err != nil {
 			return hdr, noEOF(err)
 		}
 		z.digest = crc32.Update(z.digest, crc32.IEEETable, data)
